@@ -403,7 +403,7 @@ class instrument:
 
     TARGETS = ["NamedTemporaryFile", "JokerSamples.write", "h5py.File", "tb.open_file", "read_batch",
                "batch_marginal_ln_likelihood", "batch_get_posterior_samples", "pool.map", "JokerSamples.unpack",
-               "JokerSamples.pack"]
+               "JokerSamples.pack", "h5py.create_dataset", "h5py.File.close"]
 
     def __init__(self, recorder):
         self.rec = recorder
@@ -461,7 +461,25 @@ class instrument:
                 rec.hit("h5py.File", rec.open_step(name, mode))
                 super().__init__(name, mode, *a, **k)
                 created(name, existed)
+
+            def close(self_):
+                # fail *before* closing only for files opened for writing (half-written cache); the handle is still
+                # closed so that no descriptor is leaked by the injection itself
+                if self_.id.valid and self_.mode != "r":
+                    try:
+                        rec.hit("h5py.File.close")
+                    except BaseException:
+                        super().close()
+                        raise
+                return super().close()
         self._set(h5py, "File", RecFile)
+
+        orig_cd = h5py.Group.create_dataset
+
+        def create_dataset(self_, *a, **k):
+            rec.hit("h5py.create_dataset")      # a failure in the middle of writing a table
+            return orig_cd(self_, *a, **k)
+        self._set(h5py.Group, "create_dataset", create_dataset)
 
         orig_open = tables.open_file
 
